@@ -174,6 +174,26 @@ func commonAnchor(prop, key string) bool {
 	return false
 }
 
+// fpExactRe: the functions whose property clause is an exact statement about floating-point values, so that a
+// reassociation that is an identity over the reals (max-v+min for max-(v-min)) changes what the property promises.
+var fpExactRe = map[string][]*regexp.Regexp{
+	"C16": {regexp.MustCompile(`^preference_reversal\.`)},
+	"C14": {regexp.MustCompile(`^satisfaction_levels\.`)},
+	"C04": {regexp.MustCompile(`^model\.\(\*?AlternativeResult\)\.rounded$`)},
+	"C03": {regexp.MustCompile(`^model\.\(\*?AlternativeResult\)\.rounded$`)},
+}
+
+var fpExactMin = map[string]int{"C16": 5, "C14": 10, "C04": 1, "C03": 1}
+
+func fpExact(prop, key string) bool {
+	for _, re := range fpExactRe[prop] {
+		if re.MatchString(key) {
+			return true
+		}
+	}
+	return false
+}
+
 func anchoredIn(prop, key string) bool {
 	for _, re := range anchorRe[prop] {
 		if re.MatchString(key) {
@@ -254,6 +274,19 @@ func ruleE5(p *Program, c *Check, min int) {
 			construct += "#" + stripPos(fp)
 		}
 		c.Decide(res.OK, rule, sp.Key, construct, p.fpos(sp.Code), detail)
+		if res.OK && fpExact(c.Property, sp.Key) {
+			c.Rule("E5-fp", "where the property states an exact identity on floating-point end points (a mirrored range end is the other end, "+
+				"a generated level stays inside its range, a utility is rounded to 1e-8), the floating-point operations of the anchored function are "+
+				"evaluated in the reference's order (commutative operands aside): equality over the reals is not enough", fpExactMin[c.Property])
+			fpShapeMode = true
+			r2 := compareSummaries(p, Summarize(p, sp.Code), Summarize(p, sp.Spec))
+			fpShapeMode = false
+			d2 := "floating-point operations in the reference's order"
+			if !r2.OK {
+				d2 = "equal to the reference over the reals, but rounded differently: " + strings.Join(r2.Details, " ## ")
+			}
+			c.Decide(r2.OK, "E5-fp", sp.Key, "fp-shape", p.fpos(sp.Code), d2)
+		}
 	}
 	// anchors without a directly comparable counterpart (helper renamed, removed, inlined or with a changed
 	// interface; reference dropped because a type it uses changed): they are covered through their callers by
